@@ -63,6 +63,7 @@ pub const MUTATORS: &[&str] = &[
     "pe-reference",
     "external-entity-in-attr",
     "unparsed-entity-ref",
+    "redeclared-entity",
 ];
 
 /// apply mutator `which` (index into MUTATORS); returns (mutant, mutator actually applied)
@@ -479,6 +480,46 @@ fn apply(text: &str, name: &str, g: &mut Genes) -> Option<String> {
                 let te = t[rs2..].find(|c: char| c == '>' || c == '/' || c.is_whitespace())? + rs2;
                 Some(format!("{} zz=\"&ext;\"{}", &t[..te], &t[te..]))
             }
+        }
+        "redeclared-entity" => {
+            // 4.2: the first declaration of an entity is binding. One of the entity-borne violations, after which
+            // every entity of the subset is declared once more, harmlessly: the document stays ill-formed.
+            let base = match g.pick(6) {
+                0 => apply(text, "entity-recursion", g)?,
+                1 => apply(text, "lt-entity-in-attr", g)?,
+                2 => apply(text, "external-entity-in-attr", g)?,
+                3 => apply(text, "unparsed-entity-ref", g)?,
+                _ => {
+                    // the binding declaration refers to an entity that is not declared
+                    let (rs, _) = root_span(text)?;
+                    let decl = ["<!ENTITY und \"&nosuch;\">", "<!ENTITY und0 \"&nosuch;\"><!ENTITY und \"a&und0;\">"][g.pick(2)];
+                    let t = if text.contains("<!DOCTYPE") {
+                        let i = text.find('[')? + 1;
+                        format!("{}{}{}", &text[..i], decl, &text[i..])
+                    } else {
+                        format!("{}<!DOCTYPE a [{}]>{}", &text[..rs], decl, &text[rs..])
+                    };
+                    let (rs2, re2) = root_span(&t)?;
+                    let cands: Vec<usize> = occurrences(&t[rs2..re2], ">").into_iter().map(|i| rs2 + i + 1).filter(|&i| i < re2).collect();
+                    if cands.is_empty() {
+                        return None;
+                    }
+                    let k = cands[g.pick(cands.len())];
+                    format!("{}&und;{}", &t[..k], &t[k..])
+                }
+            };
+            let (rs, _) = root_span(&base)?;
+            let close = base[..rs].rfind("]>")?;
+            let mut again = String::new();
+            for name in ["rec", "rec2", "r1", "r2", "r3", "m", "m0", "ext", "und", "und0"] {
+                if base[..close].contains(&format!("<!ENTITY {} ", name)) && (name == "rec" || name == "m" || name == "ext" || name == "und" || g.chance(1, 2)) {
+                    again.push_str(&format!("<!ENTITY {} \"x\">", name));
+                }
+            }
+            if again.is_empty() {
+                return None;
+            }
+            Some(format!("{}{}{}", &base[..close], again, &base[close..]))
         }
         _ => None,
     }
